@@ -61,7 +61,8 @@ F_INITFALSE = "C18-decorator-init-false-misread"
 F_DIAMOND = "C18-bases-contribute-own-fields-only"
 F_BARECV = "C18-unsubscripted-classvar-is-a-parameter"
 F_INHDEF = "C18-redeclared-field-inherits-class-attribute-default"
-ALL_FINDINGS = [F_BARE, F_KWFALSE, F_OVERRIDE, F_INITFALSE, F_DIAMOND, F_BARECV, F_INHDEF]
+F_LABEL = "C18-subclass-with-own-init-not-labelled"
+ALL_FINDINGS = [F_BARE, F_KWFALSE, F_OVERRIDE, F_INITFALSE, F_DIAMOND, F_BARECV, F_INHDEF, F_LABEL]
 
 KIND = {inspect.Parameter.POSITIONAL_ONLY: "positional-only", inspect.Parameter.POSITIONAL_OR_KEYWORD: "positional or keyword",
         inspect.Parameter.VAR_POSITIONAL: "variadic positional", inspect.Parameter.KEYWORD_ONLY: "keyword-only",
@@ -389,8 +390,11 @@ def judge_case(rec, case: dict) -> None:  # noqa: ANN001, C901, PLR0912, PLR0915
         if cp["is_dc"] and not cp["decorated_here"]:
             rec.count("inherited_dataclass_labels_checked")
         if cp["is_dc"] != labelled:
+            # listed mechanism: the label of an *undecorated* subclass is only set on the code path that synthesises an __init__,
+            # which is skipped when the class body defines __init__ itself
+            fid = F_LABEL if (cp["is_dc"] and not fc["decorated"] and fc["init_span"] is not None) else None
             problems.append((f"{cname}: 'dataclass' label {'missing' if cp['is_dc'] else 'present on a non-dataclass'}",
-                             g["labels"], f"is_dataclass={cp['is_dc']}", None))
+                             g["labels"], f"is_dataclass={cp['is_dc']}", fid))
         # (2) the __init__ member
         if cp["own_init"]:
             exp = cp["sig"]
